@@ -4958,3 +4958,32 @@ for _p, _r in (('C01', 'C01.1'), ('C02', 'C02.1'), ('C11', 'C11.4')):
     M(_p, 'canon-fast-path-guard-lf-in-prefix-only', PGP, _CAN, _FAST % "b'\\n' not in subject[:64]", _r)
     M(_p, 'canon-fast-path-guard-inverted', PGP, _CAN, _FAST % "b'\\n' in subject", _r)
     M(_p, 'canon-fast-path-guard-or-type', PGP, _CAN, _FAST % "isinstance(subject, bytearray) or b'\\n' not in subject", _r)
+# wave 5: body helper on Packet, class-level ASN.1 layout, area selection helper with identity test, header fields on the load path
+PTY = 'pgpy/packet/types.py'
+_UPD = "    def update_hlen(self):\n        self.header.length = len(self.__bytearray__()) - len(self.header)\n\n    @abc.abstractmethod"
+_KHD = "        return pub.__bytearray__()[len(pub.header):]"
+for _p in ('C01', 'C02'):
+    T(_p, 'twin-key-hashdata-packet-body-helper', PGP, _KHD, "        return pub.__bodybytearray__()",
+      more=[(PTY, _UPD, "    def __bodybytearray__(self):\n        return self.__bytearray__()[len(self.header):]\n\n" + _UPD)])
+    M(_p, 'key-hashdata-packet-body-helper-keeps-header', PGP, _KHD, "        return pub.__bodybytearray__()", _p + '.1b',
+      more=[(PTY, _UPD, "    def __bodybytearray__(self):\n        return self.__bytearray__()[len(self.header) - 1:]\n\n" + _UPD)])
+_DSA = "        seq = Sequence(componentType=NamedTypes(*[NamedType(n, Integer()) for n in self.__mpis__]))\n"
+T('C02', 'twin-dsa-sig-class-level-layout', FL, _DSA, "        seq = Sequence(componentType=self._der_components)\n",
+  more=[(FL, "class DSASignature(Signature):\n    __mpis__ = ('r', 's')\n", "class DSASignature(Signature):\n    __mpis__ = ('r', 's')\n    _der_components = NamedTypes(*[NamedType(n, Integer()) for n in __mpis__])\n")])
+M('C02', 'dsa-sig-class-level-layout-reversed', FL, _DSA, "        seq = Sequence(componentType=self._der_components)\n", 'C02.4',
+  more=[(FL, "class DSASignature(Signature):\n    __mpis__ = ('r', 's')\n", "class DSASignature(Signature):\n    __mpis__ = ('r', 's')\n    _der_components = NamedTypes(*[NamedType(n, Integer()) for n in reversed(__mpis__)])\n")])
+_SET = "        d = self._unhashed_sp\n        if key.startswith('h_'):\n            d, key = self._hashed_sp, key[2:]\n            self._hashed_raw = None\n"
+_AREA = "        area, key = self._area_for(key)\n        if area is %s:\n            self._hashed_raw = None\n        d = area\n"
+_AREA_HELPER = ("    def _area_for(self, key):\n        if key.startswith('h_'):\n            return self._hashed_sp, key[2:]\n        return self._unhashed_sp, key\n\n"
+                "    def __getitem__(self, key):\n        if isinstance(key, tuple):  # pragma: no cover\n            return self._hashed_sp.get")
+_GET = "    def __getitem__(self, key):\n        if isinstance(key, tuple):  # pragma: no cover\n            return self._hashed_sp.get"
+T('C05', 'twin-setitem-area-helper-identity-test', FL, _SET, _AREA % 'self._hashed_sp', more=[(FL, _GET, _AREA_HELPER)])
+M('C05', 'setitem-area-helper-identity-test-wrong-area', FL, _SET, _AREA % 'self._unhashed_sp', 'C05.3', more=[(FL, _GET, _AREA_HELPER)])
+M('C05', 'setitem-area-helper-identity-test-negated', FL, _SET, _AREA % 'not self._hashed_sp', 'C05.3', more=[(FL, _GET, _AREA_HELPER)])
+_LOADP = "            else:\n                self._signature = pkt\n        else:\n            raise ValueError('Expected: Signature. Got: {:s}'.format(pkt.__class__.__name__))"
+M('C05', 'load-rewrites-timestamp-type', PGP, _LOADP, "            else:\n                self._signature = pkt\n                if pkt.sigtype == SignatureType.Timestamp and len(pkt.subpackets._hashed_sp) > 1:\n                    pkt.sigtype = SignatureType.Standalone\n        else:\n            raise ValueError('Expected: Signature. Got: {:s}'.format(pkt.__class__.__name__))", 'C05.1')
+M('C05', 'load-upgrades-hash-algorithm-field', PGP, _LOADP, "            else:\n                self._signature = pkt\n                if self._signature.halg == HashAlgorithm.MD5:\n                    self._signature._halg = HashAlgorithm.SHA1\n        else:\n            raise ValueError('Expected: Signature. Got: {:s}'.format(pkt.__class__.__name__))", 'C05.1')
+M('C05', 'load-composition-normalises-version', PGP, "        if isinstance(other, Signature):\n            if self._signature is None:\n                self._signature = other\n                return self\n",
+  "        if isinstance(other, Signature):\n            if self._signature is None:\n                self._signature = other\n                other.header.version = 4\n                return self\n", 'C05.1')
+M('C05', 'load-setattr-pubalg', PGP, _LOADP, "            else:\n                self._signature = pkt\n                if pkt.pubalg in (PubKeyAlgorithm.RSAEncrypt, PubKeyAlgorithm.RSASign):\n                    setattr(pkt, 'pubalg', PubKeyAlgorithm.RSAEncryptOrSign)\n        else:\n            raise ValueError('Expected: Signature. Got: {:s}'.format(pkt.__class__.__name__))", 'C05.1')
+T('C05', 'twin-load-reads-header-fields-only', PGP, _LOADP, "            else:\n                sigtype, halg = pkt.sigtype, pkt.halg\n                self._signature = pkt\n        else:\n            raise ValueError('Expected: Signature. Got: {:s}'.format(pkt.__class__.__name__))")
